@@ -624,6 +624,29 @@ func runGeneric(c *Ctx, spec *PropSpec) {
 		}
 	}
 	c.Pass(spec.ID+".G6", strings.Join(pkgs, ",")+":remainders", 0, fmt.Sprintf("%d remainder operations judged", nrem))
+	// G7
+	c.Rule(spec.ID+".G7", "a struct field of the receiver that a method rewrites is not retained by what the method hands it to (storage reused by every call never becomes a cache key or a list element)", 1)
+	g7, nscr := receiverScratchRetained(c, fns)
+	ord7 := map[*ssa.Function]*ordCounter{}
+	for _, f := range g7 {
+		if ord7[f.Fn] == nil {
+			ord7[f.Fn] = &ordCounter{}
+		}
+		c.Fail(spec.ID+".G7", ord7[f.Fn].next(f.Fn, "receiver-scratch-retained:"+f.Field), f.Pos, fmt.Sprintf("%s rewrites the field %s of its receiver through a pointer and that pointer is %s: every call hands out the same object and the next call rewrites it under its holder's feet - entries filed under it (cache keys, subset host lists) silently become those of a later call", f.Fn.Name(), f.Field, f.Why))
+	}
+	c.Pass(spec.ID+".G7", strings.Join(pkgs, ",")+":receiver-scratch", 0, fmt.Sprintf("%d rewritten receiver fields judged", nscr))
+	// G8
+	c.Rule(spec.ID+".G8", "a key looked up in a map field under a mutex and inserted when absent is inserted in the same critical section (no unlock between the look-up and the insert)", 1)
+	nli := 0
+	for _, fn := range fns {
+		fs, k := lookupInsertSplit(fn)
+		nli += k
+		ord := ordCounter{}
+		for _, f := range fs {
+			c.Fail(spec.ID+".G8", ord.next(fn, "lookup-and-insert-split:"+f.Field), f.Pos, fmt.Sprintf("%s looks a key up in %s while it holds %s, releases the mutex and inserts the entry for the absent key later: two callers that both find the key absent both create an entry and the second overwrites the first - the overwritten object stays alive (open, counted) but is known to nobody, neither idle, nor leased, nor closed", fn.Name(), f.Field, f.Mutex))
+		}
+	}
+	c.Pass(spec.ID+".G8", strings.Join(pkgs, ",")+":lookup-insert", 0, fmt.Sprintf("%d look-up/insert pairs judged", nli))
 }
 
 func discoverGeneric(c *Ctx) {
@@ -654,6 +677,20 @@ func discoverGeneric(c *Ctx) {
 		}
 	}
 	fmt.Fprintf(os.Stderr, "G5 %d append-in-loop sites\n", ns)
+	n8 := 0
+	for _, fn := range fns {
+		fs, k := lookupInsertSplit(fn)
+		n8 += k
+		for _, f := range fs {
+			fmt.Fprintf(os.Stderr, "G8 %s  %s  %s [%s]\n", shortPos(c, f.Pos), fn.String(), f.Field, f.Mutex)
+		}
+	}
+	fmt.Fprintf(os.Stderr, "G8 %d look-up/insert pairs\n", n8)
+	g7, n7 := receiverScratchRetained(c, fns)
+	for _, f := range g7 {
+		fmt.Fprintf(os.Stderr, "G7 %s  %s  %s [%s]\n", shortPos(c, f.Pos), f.Fn.String(), f.Field, f.Why)
+	}
+	fmt.Fprintf(os.Stderr, "G7 %d rewritten receiver fields\n", n7)
 	nr := 0
 	for _, fn := range fns {
 		fs, k := negativeRemainders(fn)
@@ -1080,5 +1117,190 @@ func negativeRemainders(fn *ssa.Function) (out []g6Finding, sites int) {
 			out = append(out, g6Finding{fn, bo.Pos()})
 		}
 	})
+	return
+}
+
+// G7 (seed C05-12): storage owned by the receiver and rewritten by every call must not be retained. A method that takes
+// the address of a struct-valued field of its own receiver, rewrites the pointee (a method with the pointer as receiver,
+// or a store through it) and then lets the pointer escape (kept by a callee, appended, stored) hands out the same object
+// on every call: whatever kept it - a cache key, a list element - changes under its holder's feet with the next call.
+type g7Finding struct {
+	Fn    *ssa.Function
+	Pos   token.Pos
+	Field string
+	Why   string
+}
+
+func receiverScratchRetained(c *Ctx, fns []*ssa.Function) (out []g7Finding, sites int) {
+	lv := &lvCtx{c: c, memo: map[string]int{}}
+	for _, fn := range fns {
+		if fn.Signature.Recv() == nil || len(fn.Params) == 0 || len(fn.Blocks) == 0 {
+			continue
+		}
+		recv := fn.Params[0]
+		for _, b := range fn.Blocks {
+			for _, in := range b.Instrs {
+				fa, ok := in.(*ssa.FieldAddr)
+				if !ok || fa.X != ssa.Value(recv) {
+					continue
+				}
+				pt, ok := fa.Type().Underlying().(*types.Pointer)
+				if !ok {
+					continue
+				}
+				if _, isStruct := pt.Elem().Underlying().(*types.Struct); !isStruct {
+					continue
+				}
+				ts := pt.Elem().String()
+				if strings.HasPrefix(ts, "sync.") || strings.HasPrefix(ts, "sync/atomic.") {
+					continue
+				}
+				// rewritten through the pointer in this function: a call with it as receiver of a pointer method whose name
+				// says it overwrites, or a whole-value store
+				rewritten := false
+				for _, r := range refs(fa) {
+					switch u := r.(type) {
+					case *ssa.Store:
+						if u.Addr == ssa.Value(fa) {
+							rewritten = true
+						}
+					case ssa.CallInstruction:
+						cc := u.Common()
+						if !cc.IsInvoke() && len(cc.Args) > 0 && cc.Args[0] == ssa.Value(fa) {
+							switch methodName(cc) {
+							case "Copy", "Reset", "Clear", "Set", "Init", "IntersectionWith", "UnionWith", "DifferenceWith", "Truncate":
+								rewritten = true
+							}
+						}
+					}
+				}
+				if !rewritten {
+					continue
+				}
+				sites++
+				if why := lv.escapes(fn, fa, nil, 0); why != "" {
+					_, f, _, _ := fieldAddrInfo(fa)
+					out = append(out, g7Finding{fn, fa.Pos(), f, why})
+				}
+			}
+		}
+	}
+	return
+}
+
+// G8 (seed C09-12): look-up and insert of a "one per key" table are one critical section. A method that looks a key up
+// in a map field of its receiver while holding a mutex, and on the path where the key is absent inserts an entry for it
+// into the same map, must not release the mutex in between: two callers that both find the key absent both create an
+// entry and the second overwrites the first - the overwritten object (a connection, a client, a stream) is still alive
+// and counted but nobody knows it any more.
+type g8Finding struct {
+	Fn    *ssa.Function
+	Pos   token.Pos
+	Field string
+	Mutex string
+}
+
+func lookupInsertSplit(fn *ssa.Function) (out []g8Finding, sites int) {
+	if len(fn.Blocks) == 0 {
+		return
+	}
+	mapField := func(v ssa.Value) (string, bool) {
+		_, f, _, ok := loadedField(v)
+		return f, ok
+	}
+	isUnlockOf := func(x ssa.Instruction, mutex string) bool {
+		ci, ok := x.(*ssa.Call)
+		if !ok {
+			return false
+		}
+		cc := ci.Common()
+		if m := methodName(cc); m != "Unlock" && m != "RUnlock" {
+			return false
+		}
+		if len(cc.Args) == 0 {
+			return false
+		}
+		_, f, _, ok := fieldAddrInfo(cc.Args[0])
+		return ok && f == mutex
+	}
+	for _, b := range fn.Blocks {
+		for _, in := range b.Instrs {
+			lk, ok := in.(*ssa.Lookup)
+			if !ok || !lk.CommaOk {
+				continue
+			}
+			if _, isMap := lk.X.Type().Underlying().(*types.Map); !isMap {
+				continue
+			}
+			f, ok := mapField(lk.X)
+			if !ok {
+				continue
+			}
+			// the mutex held at the lookup
+			mutex := ""
+			for _, b2 := range fn.Blocks {
+				for _, x := range b2.Instrs {
+					ci, isC := x.(*ssa.Call)
+					if !isC {
+						continue
+					}
+					if m := methodName(ci.Common()); m != "Lock" && m != "RLock" {
+						continue
+					}
+					if len(ci.Common().Args) == 0 {
+						continue
+					}
+					if _, mf, _, isF := fieldAddrInfo(ci.Common().Args[0]); isF && mayHold(lk, mf) != nil {
+						mutex = mf
+					}
+				}
+			}
+			if mutex == "" {
+				continue
+			}
+			// inserts into the same map field reachable from the lookup
+			for _, b3 := range fn.Blocks {
+				for _, y := range b3.Instrs {
+					mu, isMU := y.(*ssa.MapUpdate)
+					if !isMU {
+						continue
+					}
+					if f2, ok2 := mapField(mu.Map); !ok2 || f2 != f {
+						continue
+					}
+					if existsPath(fn, lk, func(z ssa.Instruction) bool { return z == ssa.Instruction(mu) }, nil) == nil {
+						continue
+					}
+					sites++
+					// a path lookup -> Unlock(mutex) -> insert
+					split := false
+					for _, b4 := range fn.Blocks {
+						for _, u := range b4.Instrs {
+							if !isUnlockOf(u, mutex) {
+								continue
+							}
+							// ... on which the key is not looked up again after the mutex was re-acquired (double-checked
+							// locking and retry loops look it up again: that second look-up is the one that counts)
+							again := func(z ssa.Instruction) bool {
+								l2, isL := z.(*ssa.Lookup)
+								if !isL || !l2.CommaOk {
+									return false
+								}
+								f3, ok3 := mapField(l2.X)
+								return ok3 && f3 == f
+							}
+							if existsPath(fn, lk, func(z ssa.Instruction) bool { return z == u }, again) != nil &&
+								existsPath(fn, u, func(z ssa.Instruction) bool { return z == ssa.Instruction(mu) }, again) != nil {
+								split = true
+							}
+						}
+					}
+					if split {
+						out = append(out, g8Finding{fn, mu.Pos(), f, mutex})
+					}
+				}
+			}
+		}
+	}
 	return
 }
